@@ -17,7 +17,10 @@ from fractions import Fraction as F
 from . import build, proto, core, gen, translate, solvelib, lpfam, filegen, p_files
 from .hist import hx
 
-OBL = [("Qsx.Props.C11", t) for t in ["Qsx.Props.C11.scan_total", "Qsx.Props.C11.scan_consumes_le", "Qsx.Props.C11.scan_never_divides_by_zero"]]
+OBL = [("Qsx.Props.C11", t) for t in ["Qsx.Props.C11.scan_total", "Qsx.Props.C11.scan_consumes_le", "Qsx.Props.C11.scan_never_divides_by_zero",
+                                     "Qsx.Props.C11.lplex_init_safe", "Qsx.Props.C11.lplex_safe", "Qsx.Props.C11.lplex_scan_loop_safe",
+                                     "Qsx.Props.C11.has_colon_before_fix_reads_behind_terminator", "Qsx.Props.C11.lplex_progress",
+                                     "Qsx.Props.C11.lplex_skip_monotone"]]
 
 
 def mutate_tokens(rng, text, fmt):
@@ -225,7 +228,10 @@ def run(pid, tier, seed):
             rd = proto.get(blk, "read")
             payload = {"format": fmt, "mutation": kind, "file_name": name, "file_hex": data.hex()[:20000], "file_text": data.decode("latin-1")[:1500]}
             if sig == ["14"]:
-                rep.violation("the %s reader does not terminate (alarm after 20 s) on a %s file" % (fmt, kind), payload, signature={"symptom": "hang", "fmt": fmt, "kind": kind.split("-")[0]})
+                if proto.get(blk, "wmps") is not None:
+                    rep.violation("the problem the %s reader returned for a %s file is not solved within 300 s" % (fmt, kind), payload, signature={"symptom": "solve-timeout", "fmt": fmt, "kind": kind.split("-")[0]})
+                else:
+                    rep.violation("the %s reader does not terminate (alarm after 20 s) on a %s file" % (fmt, kind), payload, signature={"symptom": "hang", "fmt": fmt, "kind": kind.split("-")[0]})
                 continue
             if sig is not None or cex is not None:
                 rep.violation("the %s reader crashes (%s) on a %s file" % (fmt, "signal " + sig[0] if sig else "sanitizer abort", kind), payload,
@@ -243,13 +249,21 @@ def run(pid, tier, seed):
                 ev.sample({"format": fmt, "mutation": kind, "outcome": rd, "text": data.decode("latin-1")[:300]})
         if tr.crashed and getattr(tr, "returncode", 0) != 3:
             rep.violation("harness ended early in a reader batch: " + tr.crashed[-300:], {}, signature={"symptom": "batch-crash"}, found_input=False)
+    # ---- the lexical layer of the LP reader driven directly vs Qsx.LpLex (theorems lplex_safe / lplex_progress are about this model)
+    from . import lextie
+    lmodel = solvelib.Model(*proto.INF_LINE.split()[1:3])
+    lex_compare = lextie.run(ev, rep, rng.fork("lextie"), exe, lmodel, quick)
+    lmodel.run()
+    lex_compare()
     for thm, why in pr["failed"]:
         rep.violation("proof obligation no longer checks: %s (%s)" % (thm, why), {"theorem": thm, "why": why, "log": pr["log"][-2000:]},
                       signature={"symptom": "proof", "theorem": thm}, found_input=False)
     ev.cov["rule"] = ("valid LP/MPS files from the real writers and from the independent generator, mutated at token level (duplicate/swap/delete lines, repeated sections "
                       "introducing new names, 200-70000 character names, lines of up to 30000 terms, pathological literals), at byte level (bit flips, insertions, "
                       "deletions, control bytes, truncation) and random bytes, plain and in .gz/.bz2 containers (intact, truncated, corrupted, wrong extension, empty); "
-                      "mutated basis files; every read in a forked ASan child with a 20 s alarm. distinct = distinct (format, bytes).")
+                      "mutated basis files; every read in a forked ASan child with a 20 s alarm; direct sessions on the lexical layer of the LP reader (text + call "
+                      "sequence, whole observable state compared with Qsx.LpLex after every call, memory behind the string terminators poisoned). "
+                      "distinct = distinct (format, bytes) resp. (text, calls).")
     ev.assumptions += ["memory safety of the unmodelled reader code can only be exhibited by the sanitizer during these runs, not proved",
                        "files are limited to 64 KiB; numeric exponents are limited to 4 digits by the generators"]
     code = rep.finish()
